@@ -458,6 +458,8 @@ def judge_encode(drv, st):
             break
         return out
     want = bytes(st["enc"])
+    if "null-collection-element" in features(t, st["val"]):
+        return out                      # not judged: see encode_null_element_outcome
     for variant in encode_variants(t):
         try:
             got = T.to_binary(py_value(drv, t, st["val"], variant), pv)
@@ -469,6 +471,25 @@ def judge_encode(drv, st):
                         {"variant": variant, "real": bytes(got).hex(), "spec": want.hex()}))
             break
     return out
+
+
+def encode_null_element_outcome(drv, st):
+    """A value with a null element inside a list / set / map.  Cassandra refuses such a value on write ("null is not
+    supported inside collections"), its low-level CollectionSerializer.writeValue writes the length -1 for a null
+    buffer (what Codec.tla's Enc says, and what decodes as null), while its typed element serializers turn a null of a
+    non-string type into the legacy EMPTY value (length 0).  The reference is not unique, so the bytes the driver
+    writes are recorded, not judged (C01 judges whether such a value survives the round trip)."""
+    T = drv.cass_type(st["ty"])
+    try:
+        got = T.to_binary(py_value(drv, st["ty"], st["val"], "seq"), st["pv"])
+    except Exception as ex:
+        return "raised:" + type(ex).__name__
+    if got == bytes(st["enc"]):
+        return "length -1 (Codec.tla Enc)"
+    want = bytes(st["enc"])
+    if len(got) == len(want) and all(a == b or (b == 0xFF and a == 0) for a, b in zip(got, want)):
+        return "length 0 (legacy empty value)"
+    return "other"
 
 
 def judge_decode(drv, st):
@@ -571,7 +592,7 @@ ALL_SCALARS = {"boolean", "tinyint", "smallint", "int", "bigint", "counter", "ti
 INVARIANTS = ["TypeOK", "RoundTrip", "LengthConsistent", "FixedWidths", "NormIdempotent", "VarintMinimal",
               "VintCanonical", "WidthRule", "RaiseJustified"]
 WITNESSES = ["Witness_NullField", "Witness_ShortUdt", "Witness_V2Width", "Witness_Vint5", "Witness_Varint3",
-             "Witness_Raise", "Witness_VarVector"]
+             "Witness_Raise", "Witness_VarVector", "Witness_LongVecElem"]
 VEC_SCALARS = {"int", "bigint", "timestamp", "boolean", "uuid", "text", "varint", "blob", "decimal", "inet"}
 
 
@@ -663,3 +684,181 @@ def census(cases):
             d = depth(st["ty"])
             feats["depth-%d" % d] = feats.get("depth-%d" % d, 0) + 1
     return fam, feats
+
+
+# ------------------------------------------------------------------ C07: the same vectors through one build of the driver
+
+RESULT_OPCODE = 0x08
+ROWS_PER_MESSAGE = 400
+
+
+def cells_of(st):
+    """(cell bytes | None, expected canonical object) for every cell a state contributes to a ROWS body"""
+    if st["expect"] == "null":
+        return [(None, jsonable(expected_cell(st["ty"], st["norm"])))]
+    if st["expect"] == "empty":
+        return [(b"", jsonable(expected_cell(st["ty"], st["norm"])))]
+    exp = jsonable(expected(st["ty"], st["norm"]))
+    return [(bytes(e), exp) for e in st["img"]]
+
+
+def rows_messages(states):
+    """ROWS bodies assembled (harness.wire.body_rows) from the cells of the states: per (type, pv) two columns of that
+    type; row i = (cell i, cell i+1).  -> list of (ty, pv, body, [(case id, cell, expected)] per row for column 1,
+    same for column 2)"""
+    from harness import wire
+    groups = {}
+    for st in states:
+        if st["expect"] in ("ok", "null", "empty"):
+            g = groups.setdefault((tkey(st["ty"]), st["pv"]), (st["ty"], st["pv"], []))
+            cid = case_id(st)
+            for cell, exp in cells_of(st):
+                g[2].append((cid, cell, exp))
+    out = []
+    for key in sorted(groups, key=str):
+        ty, pv, cells = groups[key]
+        wt = wire_type(ty)
+        for lo in range(0, len(cells), ROWS_PER_MESSAGE):
+            chunk = cells[lo:lo + ROWS_PER_MESSAGE]
+            second = chunk[1:] + chunk[:1]
+            body = wire.body_rows([("c1", wt), ("c2", wt)], [[a[1], b[1]] for a, b in zip(chunk, second)])
+            out.append((ty, pv, body, chunk, second))
+    return out
+
+
+def run_rows(proto, handler_names, states):
+    """decode every ROWS body with the named protocol handlers of `proto`; -> (deviations: key -> record, rows, cells)"""
+    devs = {}
+    nrows = ncells = 0
+    for ty, pv, body, col1, col2 in rows_messages(states):
+        for hname in handler_names:
+            handler = getattr(proto, hname)
+            if handler is None:
+                raise RuntimeError("protocol handler %s is not available in this build" % hname)
+            try:
+                msg = handler.decode_message(pv, {}, 1, 0, RESULT_OPCODE, body, None, None)
+                rows = list(msg.parsed_rows)
+                names, types_ = list(msg.column_names), msg.column_types
+            except Exception as ex:
+                # the whole message failed: find the rows that make it fail, one message per row
+                rows = None
+                err = _err(ex)
+            if rows is None:
+                from harness import wire
+                wt = wire_type(ty)
+                for a, b in zip(col1, col2):
+                    nrows += 1
+                    ncells += 2
+                    one = wire.body_rows([("c1", wt), ("c2", wt)], [[a[1], a[1]]])
+                    try:
+                        m1 = handler.decode_message(pv, {}, 1, 0, RESULT_OPCODE, one, None, None)
+                        got = jsonable(canon(list(m1.parsed_rows)[0][0]))
+                        if got != a[2]:
+                            devs["rows|%s|%s|%s" % (hname, a[0], _cellkey(a[1]))] = {
+                                "sig": "rows:%s" % cql_kind(ty), "handler": hname, "real": got, "spec": a[2],
+                                "type": cql_name(ty), "pv": pv, "cell": _cellhex(a[1])}
+                    except Exception as ex1:
+                        devs["rows|%s|%s|%s" % (hname, a[0], _cellkey(a[1]))] = {
+                            "sig": "rows:%s:raised" % cql_kind(ty), "handler": hname, "real": "raised " + _err(ex1),
+                            "spec": a[2], "type": cql_name(ty), "pv": pv, "cell": _cellhex(a[1])}
+                continue
+            if names != ["c1", "c2"] or len(rows) != len(col1):
+                devs["rows|%s|%s|%d|shape" % (hname, tkey(ty), pv)] = {
+                    "sig": "rows:shape", "handler": hname, "real": [names, len(rows)], "spec": [["c1", "c2"], len(col1)],
+                    "type": cql_name(ty), "pv": pv, "cell": ""}
+                continue
+            for row, a, b in zip(rows, col1, col2):
+                nrows += 1
+                for got_obj, c in ((row[0], a), (row[1], b)):
+                    ncells += 1
+                    try:
+                        got = jsonable(canon(got_obj))
+                    except Exception as ex2:
+                        got = "unreadable: " + _err(ex2)
+                    if got != c[2]:
+                        devs["rows|%s|%s|%s" % (hname, c[0], _cellkey(c[1]))] = {
+                            "sig": "rows:%s" % cql_kind(ty), "handler": hname, "real": got, "spec": c[2],
+                            "type": cql_name(ty), "pv": pv, "cell": _cellhex(c[1])}
+    return devs, nrows, ncells
+
+
+def cql_kind(t):
+    return t[0] if is_scalar(t) else "%s<%s>" % (t[0], "/".join(sorted(scalars_of(t))))
+
+
+def _cellkey(cell):
+    return "null" if cell is None else hashlib.blake2b(cell, digest_size=8).hexdigest()
+
+
+def _cellhex(cell):
+    return "null" if cell is None else cell.hex()
+
+
+def run_vectors(drv, proto, handler_names, states):
+    """Every vector through one build: cqltypes to_binary / from_binary (the C02 judgement, and the C01 round trip at the
+    case's own version) and the ROWS bodies through the protocol handlers.  -> {"devs": key -> record, counters}"""
+    devs = {}
+    n = 0
+    for st in states:
+        cid = case_id(st)
+        found = []
+        if st["expect"] in ("ok", "raise"):
+            found += judge_encode(drv, st)
+        if st["expect"] != "raise":
+            found += judge_decode(drv, st)
+        if st["expect"] == "ok":
+            found += judge_roundtrip(drv, st, (st["pv"],))[1]
+        n += 1
+        for sig, msg, detail in found:
+            devs["types|%s|%s|%s" % (cid, sig.split(":")[0], detail.get("bytes") or detail.get("variant") or "")] = {"sig": "types:" + sig, "real": detail.get("real", msg), "spec": detail.get("spec"),
+                                              "type": cql_name(st["ty"]), "pv": st["pv"], "value": st["val"],
+                                              "cell": detail.get("bytes", "")}
+    rdevs, nrows, ncells = run_rows(proto, handler_names, states)
+    devs.update(rdevs)
+    return {"devs": devs, "cases": n, "rows": nrows, "cells": ncells}
+
+
+COMPILED_MODULES = ("bytesio", "cython_utils", "deserializers", "obj_parser", "parsing", "row_parser",
+                    "cqltypes", "protocol", "util", "cmurmur3")
+
+
+def worker_main(argv):
+    """subprocess entry for C07: argv = [build_dir, states.json, out.json]; imports the driver from build_dir, where the
+    extension modules were built, checks that they really are the compiled ones, runs every vector."""
+    import importlib
+    import os
+    import sys
+    build_dir, states_path, out_path = argv
+    sys.path.insert(0, build_dir)
+    verif = os.path.dirname(os.path.dirname(os.path.dirname(os.path.abspath(__file__))))
+    if verif not in sys.path:
+        sys.path.append(verif)
+    import logging
+    logging.getLogger("cassandra").setLevel(logging.CRITICAL + 1)
+    import cassandra
+    info = {"cassandra": os.path.abspath(cassandra.__file__), "modules": {}}
+    if not info["cassandra"].startswith(os.path.abspath(build_dir) + os.sep):
+        raise RuntimeError("cassandra imported from %s, not from the build in %s" % (info["cassandra"], build_dir))
+    for m in COMPILED_MODULES:
+        mod = importlib.import_module("cassandra." + m)
+        f = os.path.abspath(mod.__file__)
+        info["modules"][m] = os.path.basename(f)
+        if not f.endswith(".so") or not f.startswith(os.path.abspath(build_dir) + os.sep):
+            raise RuntimeError("cassandra.%s is not a compiled module of the build: %s" % (m, f))
+    from cassandra import cython_deps, protocol, cqltypes, util
+    if not cython_deps.HAVE_CYTHON:
+        raise RuntimeError("HAVE_CYTHON is false in the compiled build")
+    if protocol.ProtocolHandler.__name__ != "CythonProtocolHandler" or protocol.LazyProtocolHandler is None:
+        raise RuntimeError("cassandra.protocol.ProtocolHandler is not the Cython handler: %r" % (protocol.ProtocolHandler,))
+    info["handler"] = protocol.ProtocolHandler.__name__
+    info["col_parsers"] = [type(protocol.ProtocolHandler.col_parser).__name__, type(protocol.LazyProtocolHandler.col_parser).__name__]
+    with open(states_path) as f:
+        states = json.load(f)
+    res = run_vectors(Driver(cqltypes, util), protocol, ("ProtocolHandler", "LazyProtocolHandler"), states)
+    res["info"] = info
+    with open(out_path, "w") as f:
+        json.dump(res, f)
+
+
+# started as: python -c "import sys; sys.path.insert(0, VERIF); from harness.replay import codec; codec.worker_main(sys.argv[1:])"
+# (never as a script: this directory holds modules named like standard ones)
